@@ -578,6 +578,24 @@ func vtRound(r *vfRng, st *vfStats, allCuts bool) []vfCase {
 		_ = before
 		out = append(out, vtFeedCase(4, pc, pic, m, f, true, true, st))
 	}
+	// a plain, uncompressed exchange carrying user state, cut at EVERY offset: no envelope (compression
+	// or encryption frame) hides the boundary between the node list and the user state here
+	{
+		qic := pic
+		qic.compress = false
+		qini := vtMake(qic, []string{"ia", "ib"}, []byte("USER-STATE"), nil, false)
+		qrec := &vtConn{}
+		qini.tr.next = func() net.Conn { return qrec }
+		qini.m.pushPullNode(addr, false)
+		qreq := append([]byte(nil), qrec.wr.Bytes()...)
+		qhc := pc
+		qhc.compress = false
+		qh := vtMake(qhc, []string{"ha"}, []byte("H-state"), nil, false)
+		for n := 0; n < len(qreq); n++ {
+			f := qh.feed(qreq[:n], 0)
+			out = append(out, vtFeedCase(2, qhc, qic, qreq[:n], f, false, true, st))
+		}
+	}
 	// the cap on concurrent push/pulls: with the limit reached a further request is refused before its
 	// (large) state is read
 	{
